@@ -3,7 +3,7 @@
    stay the extracted inductive types. *)
 From Coq Require Import List ZArith NArith QArith Extraction ExtrOcamlBasic.
 From LMBase Require Import Res ListX IEEE.
-From LMPwm Require Import GenComplement PwmModel PwmCheck PwmStat PwmStatCheck.
+From LMPwm Require Import GenComplement PwmModel PwmCheck PwmCheck2 PwmLog PwmStat PwmStatCheck.
 
 Definition xf_of_bits := F32.of_bits.
 Definition xf_to_bits := F32.to_bits.
@@ -19,6 +19,11 @@ Definition rc_N := @rc N 0%N dna_K dna_symbols dna_comp.
 Definition rc_seq_dna := rc_seq dna_comp.
 
 Extraction Language OCaml.
+(* PwmLog.v instantiates coq-interval's functors (SpecificFloat StdZRadix2, FloatIntervalFull); module
+   extraction also emits their specification-side fields over Coq's real numbers, which rest on this axiom of
+   the Reals library.  The executable checkers never reach it (they compute on Z mantissas only); realised by
+   a function that raises, so that reaching it would be a driver exception (DIFF), never a wrong verdict. *)
+Extract Constant ClassicalDedekindReals.sig_forall_dec => "(fun _ -> failwith ""real-number computation reached"")".
 Extraction "pwm_model.ml"
   F32ops xf_of_bits xf_to_bits f32_div f32_is_nan f32_le f32_zero f32_ninf
   from_sequences count_new counts_spec_matrix
@@ -33,4 +38,8 @@ Extraction "pwm_model.ml"
   strand_symmetric check_mirror
   f32_neg f32_sqrt conv_N conv_id dot norm auto_correlation cross_correlation
   entropy consensus weight_information_content scoring_information_content weight_of_scoring
+  check_freq2 freq_skips weight_skips rescale_skips score_cell_skipped check_score_cell2
+  window_skipped mirror_skipped check_one_step_two_step
+  log_pair_ok check_log_table check_log_mono base_iv check_score_cell_real base_gt_one kind_of_base
+  ln_iv_f32 log_pair_ok_k_pre check_score_cell_real_pre
   bg_from_counts_ovf check_consensus check_corr_range check_corr_sym check_entropy_range check_entropy check_auto_periodic check_entropy_exact check_sic.
